@@ -6,10 +6,10 @@ sys.path.insert(0, ROOT)
 os.environ.setdefault('INFOCF_LOGLEVEL', 'ERROR')
 
 TECH = {
- 'C01': 'reference-model monitor (tolerance-partition definition on enumerated worlds) over generated bases',
- 'C02': 'reference-model monitor (Z-rank comparison on enumerated worlds)',
- 'C03': 'reference-model monitor (preferred-structure definition), both MaxSAT back-ends',
- 'C04': 'reference-model monitor (lexicographic count vectors), both MaxSAT back-ends',
+ 'C01': 'reference-model monitor (tolerance-partition definition on enumerated worlds; satisfiability-based on large bases) over generated and corpus bases',
+ 'C02': 'reference-model monitor (Z-rank comparison on enumerated worlds; satisfiability-based on large bases)',
+ 'C03': 'reference-model monitor (preferred-structure definition; counterexample-guided on large bases), both MaxSAT back-ends',
+ 'C04': 'reference-model monitor (lexicographic count vectors; cardinality-bounded satisfiability on large bases), both MaxSAT back-ends',
  'C05': 'reference-model monitor (bounded brute force + certified z3 counter-models over c-representations)',
  'C06': 'reference-model monitor on consistency/partition/diagnostics + refusal events',
  'C07': 'reference-model monitor restricted to feasible worlds; exceptions are events',
@@ -19,7 +19,7 @@ TECH = {
  'C11': 'differential monitor across all usable pmaxsat back-ends / SAT engines',
  'C12': 'metamorphic monitor (rekey, permute, rename, rewrite) on programmatic bases',
  'C13': 'history monitor with injected worker delays and a process monitor',
- 'C14': 'fault enumeration on Deadline reads and Optimize.check results by logical index',
+ 'C14': 'fault enumeration on Deadline reads and Optimize.check results by logical index, plus real fractional budgets on corpus bases (real clock, no injection)',
  'C15': 'runtime contracts on CNF translation (DPLL judge) and correction-set enumeration (world enumeration)',
  'C16': 'reference-model monitor on ranks/acceptance with lazy-order histories and cache contract',
  'C17': 'reference-model monitor (c-representation check, exact Pareto box) + bounded-progress counter',
